@@ -1185,6 +1185,13 @@ func (w *daWorld) block(pre daSnap, dt int64, cur *daSnap) (active []string, asg
 			ext = append(ext, fmt.Sprintf("assign %s %s %s", u, v, idxStr(ix)))
 		}
 	}
+	if len(active) == 0 {
+		// every validator has been jailed (by x/da's own slashing): the chain has no validator set left, and
+		// GetZkpThreshold would divide by zero; the history ends before this block
+		e.Note("no bonded validator left; history ends")
+		e.Stat("history_ended_no_validators")
+		return nil, nil, nil, false
+	}
 	_, err := c.NextBlock(time.Duration(dt))
 	if err != nil {
 		for _, l := range ext {
